@@ -277,20 +277,10 @@ def dkep2dv(orb, *, da=0, di=0, dOmega=0):
 
     v_final = orb.infos.v + dv_a
 
-    # Al-Kashi
-    dv = np.sqrt(
-        orb.infos.v ** 2 + v_final ** 2 - 2 * orb.infos.v * v_final * np.cos(dangle)
-    )
+    # Final velocity = v_final rotated by dangle out of the orbital plane.
+    # Its components are taken directly: going through the law of cosines
+    # and sqrt(1 - ratio ** 2) cancels catastrophically for small increments.
     dv_t = v_final * np.cos(dangle) - orb.infos.v
-
-    ratio = abs(dv_t / dv)
-
-    # Due to some floating point operation rounding, this ratio
-    # can be superior to one.
-    if np.isclose(ratio, 1):
-        dv_w = 0
-    else:
-        # equivalent to dv_w = dv * np.sin(np.arccos(ratio))
-        dv_w = dv * np.sqrt(1 - ratio ** 2)
+    dv_w = abs(v_final * np.sin(dangle))
 
     return np.array([dv_t, 0, dv_w])
